@@ -325,11 +325,13 @@ where
             (self.h.t.values.table.as_ref() as &K::Type<K::I>).bincount(node_count.clone());
         let out_degrees =
             (self.h.s.values.table.as_ref() as &K::Type<K::I>).bincount(node_count.clone());
-        let ones = K::Index::fill(K::I::one(), node_count);
 
         // Monogamy condition: for each node, degree is 0 iff on the interface, else 1.
         // Equivalent to elementwise: degree + interface_count == 1.
-        (in_degrees + in_counts - ones.clone()).zero().len() == ones.len()
-            && (out_degrees + out_counts - ones).zero().len() == self.h.w.len()
+        // NOTE: tested without subtracting, since the sum is 0 for a node which is neither
+        // on the interface nor incident to an edge.
+        let all_ones =
+            |x: K::Index| x.zero().is_empty() && x.max().map_or(true, |m| m <= K::I::one());
+        all_ones(in_degrees + in_counts) && all_ones(out_degrees + out_counts)
     }
 }
